@@ -244,12 +244,16 @@ func render(c *Case) map[string]string {
 			fmt.Fprintf(&defs, "type Alias%d = %s\n\n", k, local)
 		}
 	}
-	for _, t := range c.Types {
+	for k, t := range c.Types {
 		w := &defs
 		if t.Pkg == sub {
 			w = &subf
 		}
 		fmt.Fprintf(w, "type %s %s\n\n", t.Name, t.Decl)
+		if (c.Case+k)%3 == 0 {
+			// an alias of a (possible) member type is not a type of its own: the member list must not change
+			fmt.Fprintf(w, "type %s%d = %s\n\n", []string{"Aa", "Zz"}[(c.Case/3)%2], k, t.Name)
+		}
 		if t.NoOwnMethods {
 			continue
 		}
